@@ -273,6 +273,10 @@ func cmdCheck(prop, tier string) int {
 		}
 		samples = append(samples, map[string]interface{}{"obligation": o.Name, "kind": o.Kind, "goal": goal, "status": st, "backend": be})
 	}
+	nKnown := 0
+	for _, v := range known {
+		nKnown += len(v)
+	}
 	var knownList []string
 	for k, v := range known {
 		knownList = append(knownList, fmt.Sprintf("%s (%d obligations)", k, len(v)))
@@ -292,7 +296,8 @@ func cmdCheck(prop, tier string) int {
 	ev := &Evidence{PropertyID: prop, Tier: tier, Seed: seed(), Level: "proof", WallS: time.Since(t0).Seconds(), Violations: nviol,
 		Assumptions: append(trusted, lemAssume...),
 		Coverage: map[string]interface{}{
-			"obligations":              len(obls) - nBounded,
+			"obligations":              len(obls) - nBounded - nKnown,
+			"known_finding_obligations": nKnown,
 			"bounded_checks":           nBounded,
 			"discharged":               discharged,
 			"checker_cmd":              fmt.Sprintf("/verif/bin/sigverif check %s --tier %s", prop, tier),
@@ -313,7 +318,7 @@ func cmdCheck(prop, tier string) int {
 		}}
 	writeEvidence(prop, ev)
 	fmt.Printf("%s: %d obligations, %d discharged, %d known-finding, %d violations, %d functions, %d instantiations, %.1fs wall, %.1fs solver\n",
-		prop, len(obls)-nBounded, discharged, len(obls)-nBounded-discharged-len(failed), nviol, len(funcs), insts, time.Since(t0).Seconds(), solverTime)
+		prop, len(obls)-nBounded-nKnown, discharged, nKnown, nviol, len(funcs), insts, time.Since(t0).Seconds(), solverTime)
 	if machineryErr || (len(s.errs) > 0 && nviol == 0) {
 		if len(s.errs) > 0 {
 			// a generator error on code we cannot model: report as violation without input
